@@ -35,22 +35,24 @@ Definition crashed (k : nat) : mgr :=
 (* flush oracle: each flush completes the job flush asks for (the oldest) *)
 Definition Ds4 : list (list Z) := [[0%Z]; [216%Z]; [432%Z]; [648%Z]].
 
+Definition M4 : mgr := with_ring (final SZ NJ MAXB s0 (firstn 4 hist)) (crashed 4).
+Lemma M4_ring : m_ring M4 = final SZ NJ MAXB s0 (firstn 4 hist).
+Proof. unfold M4, with_ring. cbn [m_ring]. reflexivity. Qed.
+
 Example ex_crash4_hyps :
-  let M := with_ring (final SZ NJ MAXB s0 (firstn 4 hist)) (crashed 4) in
-  let R := m_ring (reattach host_cpu 0 0x10000000000 M) in
+  let R := m_ring (reattach host_cpu 0 0x10000000000 M4) in
   ops_ok SZ NJ MAXB R (map Flush Ds4) = true /\
   Z.of_nat (List.length Ds4) = pending_count SZ NJ MAXB s0 (firstn 4 hist).
 Proof. vm_compute. split; reflexivity. Qed.
 
 (* the theorem applied *)
 Example ex_crash4 :
-  let M := with_ring (final SZ NJ MAXB s0 (firstn 4 hist)) (crashed 4) in
-  let R := m_ring (reattach host_cpu 0 0x10000000000 M) in
+  let R := m_ring (reattach host_cpu 0 0x10000000000 M4) in
   all_returned (trace SZ NJ MAXB R (map Flush Ds4)) = [11; 12; 13; 14]%Z.
 Proof.
-  intros M R. destruct ex_hist_ok as [He Hok]. destruct ex_crash4_hyps as [H1 H2].
-  destruct (crash_flush_returns_all_in_order s0 0 hist 4 host_cpu 0 0x10000000000 M Ds4 He Hok eq_refl H1 H2) as (Hret & _).
-  fold M R in Hret. rewrite Hret. vm_compute. reflexivity.
+  intros R. destruct ex_hist_ok as [He Hok]. destruct ex_crash4_hyps as [H1 H2].
+  destruct (crash_flush_returns_all_in_order s0 0 hist 4 host_cpu 0 0x10000000000 M4 Ds4 He Hok M4_ring H1 H2) as (Hret & _).
+  fold R in Hret. rewrite Hret. vm_compute. reflexivity.
 Qed.
 
 (* and computed directly, at every crash point of the history: the jobs handed back by flushing
